@@ -19,6 +19,11 @@ def programs(tabs):
     # lines with an empty body (legitimate spacer lines): their terminator / header bytes are framing like any other
     for d in ("6502", "ARM", "Z80", "Windows", "PDP11"):
         out.append((d, bc.prog(d, [(10, [0xDB]), (20, []), (30, [0xF1, 34, 72, 34]), (40, []), (50, [0xE0])])))
+    # little-endian programs that begin with lines of length 3 (no body and no terminator, as the BBC BASIC for SDL compiler writes)
+    for d in ("Z80", "Windows"):
+        body = bytes([3, 10, 0, 3, 20, 0, 3, 30, 0]) + bc.prog(d, [(40, [0xF1, 34, 72, 34]), (50, [0xE0])])
+        out.append((d, body))
+        out.append((d, bytes([3, 10, 0, 3, 20, 0]) + bc.prog(d, [])))
     return out
 
 
@@ -79,14 +84,20 @@ def run(chk, tier, seed):
         # several input files
         maxn = 3 if quick else 4
         for d, A, B in (("6502", progs[0][1], progs[1][1]), ("Z80", progs[6][1], progs[7][1])):
-            files = {"A": A, "B": B, "T": A[: len(A) // 2], "C": A[:5] + bytes([A[5] ^ 0x55]) + A[6:], "U": A[: len(A) - 1]}
+            # L leaves loops open, M closes loops that were never opened: with LISTO (default 7) the next file must still start at
+            # indentation 0
+            tab = tabs[bc.CANON.get(d, d)]
+            kF, kN, kR = (bc.kwbyte(tab, k) for k in ("FOR", "NEXT", "REPEAT"))
+            L = bc.prog(d, [(10, [kF, 73, 58, kF, 74]), (20, [kR]), (30, [0xF1, 65])])
+            M = bc.prog(d, [(10, [kN, 58, kN]), (20, [0xF1, 66])])
+            files = {"A": A, "B": B, "T": A[: len(A) // 2], "C": A[:5] + bytes([A[5] ^ 0x55]) + A[6:], "U": A[: len(A) - 1], "L": L, "M": M}
             paths = {}
             single = {}
             for k, dat in files.items():
                 paths[k] = os.path.join(scratch, "multi-%s-%s.bbc" % (d, k))
                 open(paths[k], "wb").write(dat)
                 single[k] = common.run([exe, "--dialect", d, paths[k]])
-            seqs = [s for n in range(1, maxn + 1) for s in itertools.product("ABTCU", repeat=n)]
+            seqs = [s for n in range(1, maxn + 1) for s in itertools.product("ABTCULM", repeat=n)]
             if quick:
                 seqs = [s for i, s in enumerate(seqs) if len(s) < 3 or i % 3 == 0]
 
